@@ -334,7 +334,8 @@ package pubsub
 // touched; backoff entries are kept (departures do not reset the backoff).
 //@ func (*GossipSubRouter).OnClosedOutboundStream
 //@   property C07 C13 C08 C16
-//@   requires sep: sepMesh(gs) && sepFanout(gs)
+//@   requires sep: sepMesh(gs) && sepFanout(gs) && gs.tagTracer != nil
+//@   requires extensions-state: gs.extensions != nil && gs.extensions.sentExtensions != nil && gs.extensions.peerExtensions != nil
 //@   noframe
 //@   loop 1 invariant mesh: (forall t string :: $visited[t] ==> !has(gs.mesh, t, p)) &&
 //@        (forall t string, q string :: q != p ==> has(gs.mesh, t, q) == old(has(gs.mesh, t, q)) && has(gs.fanout, t, q) == old(has(gs.fanout, t, q))) &&
@@ -344,6 +345,8 @@ package pubsub
 //@        (forall t string, q string :: q != p ==> has(gs.mesh, t, q) == old(has(gs.mesh, t, q)) && has(gs.fanout, t, q) == old(has(gs.fanout, t, q))) &&
 //@        (forall t string :: (t in gs.mesh) == old(t in gs.mesh) && gs.mesh[t] == old(gs.mesh[t]) && (t in gs.fanout) == old(t in gs.fanout) && gs.fanout[t] == old(gs.fanout[t])) &&
 //@        sepMesh(gs) && sepFanout(gs) && !(p in gs.peers) && backoffSame(gs)
+//@   loop 1 step mesh-protection-released: forall t string :: iter(has(gs.mesh, t, p)) && !has(gs.mesh, t, p) ==>
+//@        calls((*tagTracer).untagMeshPeer) == iter(calls((*tagTracer).untagMeshPeer)) + 1 && lastarg((*tagTracer).untagMeshPeer, 1) == p && lastarg((*tagTracer).untagMeshPeer, 2) == t
 //@   ensures closed-traced: calls((*pubsubTracer).OnClosedOutboundStream) == old(calls((*pubsubTracer).OnClosedOutboundStream)) + 1 && lastarg((*pubsubTracer).OnClosedOutboundStream, 1) == p
 //@   ensures gone-from-peers: !(p in gs.peers)
 //@   ensures gone-from-meshes: forall t string :: !has(gs.mesh, t, p)
